@@ -81,6 +81,30 @@ def opModeHist : List String → String
     if outs.contains "bad" then "bad-op" else "ok " ++ "|".intercalate outs
   | _ => "bad-op"
 
-def modeOps : List (String × (List String → String)) := [("mh", opModeHist)]
+def hexChunks (n : Nat) : Nat → String → List String
+  | 0, _ => []
+  | fuel+1, s => if s.isEmpty then [] else (s.take (2 * n)).toString :: hexChunks n fuel (s.drop (2 * n)).toString
+
+/-- ms kind key iv ctr seg dir pad blocksize data : `encrypt_stream` / `decrypt_stream` = a feeder fed with the chunks
+that `read(block_size)` returns, then flushed; the first exception ends the call -/
+def opModeStream : List String → String
+  | [kind, key, iv, ctr, seg, dir, pad, bs, data] =>
+    match bs.toNat? with
+    | none => "bad-op"
+    | some 0 => "bad-op"
+    | some n =>
+      let d := if data == "-" then "" else data
+      let steps := [s!"new,0,{kind},{key},{iv},{ctr},{seg}", s!"fnew,0,0,{dir},{pad}"] ++
+        (hexChunks n (d.length + 1) d).map (fun c => s!"feed,0,{c}") ++ ["feed,0,final"]
+      let (_, outs) := steps.foldl (fun (acc : MH × List String) s =>
+        let (st', o) := mhStep acc.1 (s.splitOn ",")
+        (st', acc.2 ++ [o])) ({}, [])
+      if outs.contains "bad" then "bad-op" else
+      match outs.find? (fun o => o.startsWith "err:") with
+      | some e => "err " ++ (e.drop 4).toString
+      | none => "ok " ++ (let r := String.join ((outs.drop 2).map (fun o => if o == "-" then "" else o)); if r.isEmpty then "-" else r)
+  | _ => "bad-op"
+
+def modeOps : List (String × (List String → String)) := [("mh", opModeHist), ("ms", opModeStream)]
 
 end Driver
